@@ -866,3 +866,23 @@ def starred_list_display():
     b = [[5, 6]]
     both = [*a, *b]
     return len(both), [x[0] + x[1] for x in both]
+
+
+def dict_filled_on_first_sight():
+    d = {}
+    for i, j in [(0, 1), (0, 2)]:
+        for v in (i, j):
+            if v not in d:
+                d[v] = v * 10 + 1
+    return len(d), d[0], d[2]
+
+
+def chunks_of_an_iterator():
+    import itertools
+    items = iter(zip([0, 0, 1], [1, 2, 2]))
+    out = []
+    chunk = list(itertools.islice(items, 2))
+    while chunk:
+        out.append(len(chunk))
+        chunk = list(itertools.islice(items, 2))
+    return out
